@@ -299,7 +299,13 @@ func genSessionRobust(r *rand.Rand, t *Tree, id int) *SessionScn {
 		text, _ = genIniText(r, t, 1+r.Intn(5), false, chance(r, 0.7), true)
 		if chance(r, 0.55) {
 			nl := strings.Count(text, "\n") + 1
-			text = insertLine(text, pick(r, faultyLines), r.Intn(nl+1), "\n")
+			line := pick(r, faultyLines)
+			if names := cmdNames(t); len(names) > 0 && chance(r, 0.3) {
+				// near misses of section names: a command name with one more character, with a bare dot, with an unknown tail, in other case
+				n := pick(r, names)
+				line = "[" + pick(r, []string{n + "x", n + "-", n + "1", n + ".", n + ".nosuch", strings.ToUpper(n), n + " ", "x" + n, n + ".." + n}) + "]"
+			}
+			text = insertLine(text, line, r.Intn(nl+1), "\n")
 			sc.Tags = append(sc.Tags, "fault")
 		}
 	}
@@ -697,4 +703,18 @@ func genSessionDeterminism(r *rand.Rand, t *Tree, id int, repeat int) *SessionSc
 		sc.Calls = append(sc.Calls, Call{Op: "write", IniOpts: []string{"IncludeDefaults"}, Argv: []S{}, Text: S{}})
 	}
 	return sc
+}
+
+// cmdNames lists the command names of a tree, as dotted paths from the root.
+func cmdNames(t *Tree) []string {
+	var out []string
+	var walk func(c *CmdNode, prefix string)
+	walk = func(c *CmdNode, prefix string) {
+		for _, sc := range c.Cmds {
+			out = append(out, prefix+sc.Name)
+			walk(sc, prefix+sc.Name+".")
+		}
+	}
+	walk(t.Root, "")
+	return out
 }
